@@ -94,6 +94,20 @@ Theorem C15_rows : forall per m faces pieces values, length faces = length piece
 Proof. exact c15_rows_pipeline. Qed.
 Print Assumptions C15_rows.
 
+(* split: a face that does not cross is never handed to the antimeridian correction and shows as
+   exactly one polygon; a crossing face as its pieces *)
+Theorem C15_split_per_face : forall m faces pieces values i,
+  length faces = length pieces -> (i < length faces)%nat ->
+  count_occ Nat.eq_dec (o_faces (c15_poly_full C15Split m faces None pieces values)) i =
+  if c15_crosses (c15_shell m (nth i faces [])) then nth i pieces 0%nat else 1%nat.
+Proof. exact c15_split_rows_per_face. Qed.
+Print Assumptions C15_split_per_face.
+
+(* ... and that is the shape of the correction site in the current source (translator flag) *)
+Theorem C15_split_site_current : c15_poly_split_only_crossing = true.
+Proof. exact c15_split_site_current. Qed.
+Print Assumptions C15_split_site_current.
+
 (* the corrected -> original table is monotone, *)
 Theorem C15_split_monotone : forall pieces, StronglySorted le (c15_split_map pieces).
 Proof. exact c15_split_map_sorted. Qed.
